@@ -354,12 +354,12 @@ def _toy_class():
         return Toy
 
     class Toy(CodeGenMixin, torch.nn.Module):  # noqa: F811
-        def __init__(self, pre, gen, post, extra):
+        def __init__(self, pre, gen, post, extra, buffers=False):
             super().__init__()
             for n in pre:
                 self.add_module(n, torch.nn.Identity())
             for i, n in enumerate(gen):
-                self._codegen_register({n: _toy_graph(float(i + 1))})
+                self._codegen_register({n: _toy_graph(float(i + 1), buffers)})
             for n in post:
                 self.add_module(n, torch.nn.Identity())
             if extra:
@@ -378,13 +378,20 @@ def _toy_class():
     return Toy
 
 
-def _toy_graph(c):
+def _toy_graph(c, buffers=False):
     import torch
     from torch import fx
     g = fx.Graph()
     x = g.placeholder("x", torch.Tensor)
-    g.output(g.call_function(torch.mul, (x, c)))
-    return fx.GraphModule(torch.nn.Module(), g, class_name="toy_fn")
+    root = torch.nn.Module()
+    if buffers:
+        # like the `_w3j_*` constants of generated tensor-product code: a buffer owned by the generated submodule
+        root.register_buffer("k", torch.tensor([c, 0.5 * c, 1.0 / 3.0]))
+        k = g.get_attr("k")
+        g.output(g.call_function(torch.mul, (x, k)))
+    else:
+        g.output(g.call_function(torch.mul, (x, c)))
+    return fx.GraphModule(root, g, class_name="toy_fn")
 
 
 def part1_codegen(ctx, report):
@@ -1225,6 +1232,269 @@ def run_history(S, fams, hseed, n_ops):
     ctx.traces += 1
 
 
+# --------------------------------------------------------------------------------------
+# Part 2d: copies of the SAME object interleaved with in-place dtype changes
+# --------------------------------------------------------------------------------------
+DT_CONVERT = ("double", "float", "to64", "to32", "to64-kw", "to32-kw")
+DT_COPY = ("deepcopy", "pickle", "torchsave")
+DT_FIXED_SEQS = [
+    ["deepcopy", "double", "deepcopy"],
+    ["pickle", "double", "pickle"],
+    ["torchsave", "to64", "torchsave", "float", "torchsave"],
+    ["deepcopy", "to64-kw", "pickle", "to32", "deepcopy", "double", "torchsave"],
+    ["double", "deepcopy", "float", "pickle"],               # control: first copy only after a conversion
+    ["pickle", "switch", "double", "deepcopy", "switch", "float", "torchsave"],   # continue on the copy
+]
+
+
+def _dt_families(tier, seed):
+    """configurations for the dtype histories: tensor products with l>0 paths (their generated code owns w3j
+    buffers), Linear, and a few other classes that own parameters / buffers / generated code"""
+    torch, e3nn, o3, nn, ejit = _imports()
+    I = o3.Irreps  # noqa: E741
+    F = []
+
+    def tp(cls, cfg, build, i1, i2, right):
+        def args(b):
+            return (I(i1).randn(b, -1), I(i2).randn(b, -1))
+        F.append(Fam(cls, cfg, build, args, right=(lambda b: (I(i2).randn(b, -1),)) if right else None))
+
+    tp("FullyConnectedTensorProduct", "dt:2x0e+2x1o,0e+1o+1e->2x0e+1o+1e,right",
+       lambda: o3.FullyConnectedTensorProduct("2x0e+2x1o", "0e+1o+1e", "2x0e+1o+1e", compile_right=True),
+       "2x0e+2x1o", "0e+1o+1e", True)
+    tp("FullyConnectedTensorProduct", "dt:1o+2e,1o+1e->1o+2e+3o",
+       lambda: o3.FullyConnectedTensorProduct("1o+2e", "1o+1e", "1o+2e+3o"), "1o+2e", "1o+1e", False)
+    tp("ElementwiseTensorProduct", "dt:2x1o+1x2e,2x1o+1x1e,right",
+       lambda: o3.ElementwiseTensorProduct("2x1o+1x2e", "2x1o+1x1e", compile_right=True), "2x1o+1x2e", "2x1o+1x1e", True)
+    tp("FullTensorProduct", "dt:1x1o+1x2e,1x1o+1x1e,right",
+       lambda: o3.FullTensorProduct("1x1o+1x2e", "1x1o+1x1e", compile_right=True), "1x1o+1x2e", "1x1o+1x1e", True)
+    tp("TensorProduct", "dt:uvw+uvu,1o,right", lambda: o3.TensorProduct(
+        "2x1o", "2x1o", "2x1e+2x2e", [(0, 0, 0, "uvw", True), (0, 0, 1, "uvu", True)], compile_right=True),
+       "2x1o", "2x1o", True)
+    tp("TensorProduct", "dt:no-specialized,no-opt-einsum", lambda: o3.TensorProduct(
+        "2x0e+2x1o", "2x0e+2x1o", "2x0e+2x1o", [(0, 0, 0, "uuu", False), (1, 1, 0, "uuu", True), (0, 1, 1, "uvw", True)],
+        _specialized_code=False, _optimize_einsums=False), "2x0e+2x1o", "2x0e+2x1o", False)
+    F.append(Fam("TensorSquare", "dt:1o+2e->3x0e+2x2e", lambda: o3.TensorSquare("1o+2e", "3x0e+2x2e"),
+                 lambda b: (I("1o+2e").randn(b, -1),)))
+    F.append(Fam("Linear", "dt:2x0e+1x1o->2x0e+1o", lambda: o3.Linear("2x0e+1x1o", "2x0e+1o"),
+                 lambda b: (I("2x0e+1x1o").randn(b, -1),)))
+    F.append(Fam("Linear", "dt:biases", lambda: o3.Linear("3x0e+2x1o", "2x0e+1x1o+1x0e", biases=True),
+                 lambda b: (I("3x0e+2x1o").randn(b, -1),)))
+    F.append(Fam("Gate", "dt:mixed", lambda: nn.Gate("1x0e+1x0o", [torch.relu, torch.tanh], "2x0e", [torch.sigmoid],
+                                                      "1x1o+1x2e"), lambda b: (I("1x0e+1x0o+2x0e+1x1o+1x2e").randn(b, -1),)))
+    F.append(Fam("NormActivation", "dt:bias", lambda: nn.NormActivation(I("1x1o+2x2e"), torch.tanh, epsilon=1e-3, bias=True),
+                 lambda b: (I("1x1o+2x2e").randn(b, -1),)))
+    F.append(Fam("BatchNorm", "dt:default", lambda: nn.BatchNorm("2x0e+1x1o"), lambda b: (I("2x0e+1x1o").randn(b, -1),)))
+    F.append(Fam("FullyConnectedNet", "dt:4-8-2", lambda: nn.FullyConnectedNet([4, 8, 2], torch.tanh),
+                 lambda b: (torch.randn(b, 4),)))
+    F.append(Fam("ReducedTensorProducts", "dt:ij=-ji,1o", lambda: o3.ReducedTensorProducts("ij=-ji", i="1o"),
+                 lambda b: (I("1o").randn(b, -1), I("1o").randn(b, -1))))
+    F.append(Fam("Extract", "dt:1e+0e+0e", lambda: nn.Extract("1e+0e+0e", ["0e", "1e+0e"], [(1,), (0, 2)]),
+                 lambda b: (I("1e+0e+0e").randn(b, -1),)))
+    _families(tier, seed)          # defines the module-level Block class
+    F.append(Fam("UserContainer", "dt:lin-gate-tp", globals()["Block"],
+                 lambda b: (I("2x0e+1x1o").randn(b, -1), I("1x0e+1x1o").randn(b, -1))))
+    ToyC = _toy_class()
+
+    def toy(scripted):
+        def build():
+            try:
+                e3nn.set_optimization_defaults(jit_script_fx=scripted)
+                return ToyC(["a"], ["f", "g"], ["b"], [], buffers=True)
+            finally:
+                _reset_defaults(e3nn)
+        return build
+    F.append(Fam("ToyCodeGenMixin", "dt:scripted,buffers", toy(True), lambda b: (torch.randn(b, 3),)))
+    F.append(Fam("ToyCodeGenMixin", "dt:fx,buffers", toy(False), lambda b: (torch.randn(b, 3),)))
+    return F
+
+
+def _dt_convert(m, op):
+    torch, *_ = _imports()
+    if op == "double":
+        return m.double()
+    if op == "float":
+        return m.float()
+    if op == "to64":
+        return m.to(torch.float64)
+    if op == "to32":
+        return m.to(torch.float32)
+    if op == "to64-kw":
+        return m.to(dtype=torch.float64)
+    if op == "to32-kw":
+        return m.to(dtype=torch.float32)
+    raise ValueError(op)
+
+
+def _dt_copy(m, op):
+    torch, *_ = _imports()
+    if op == "deepcopy":
+        return copy.deepcopy(m)
+    if op == "pickle":
+        return pickle.loads(pickle.dumps(m))
+    bio = io.BytesIO()
+    torch.save(m, bio)
+    bio.seek(0)
+    return torch.load(bio, weights_only=False)
+
+
+def _dt_close(a, b, dtype):
+    """same dtype, same shape, values equal up to rounding of that dtype"""
+    import torch
+    fa, fb = _flat(a), _flat(b)
+    if len(fa) != len(fb):
+        return False, "arity"
+    tol = 1e-11 if dtype == torch.float64 else 2e-5
+    for x, y in zip(fa, fb):
+        if x.dtype != y.dtype:
+            return False, f"dtype {y.dtype} vs {x.dtype}"
+        if x.shape != y.shape:
+            return False, f"shape {tuple(y.shape)} vs {tuple(x.shape)}"
+        if x.numel() and float((x - y).abs().max()) > tol * (1.0 + float(x.abs().max())):
+            return False, f"values differ by {float((x - y).abs().max()):.3e}"
+    return True, ""
+
+
+def run_dtype_sequence(S, fam, seed, seq, batch=3):
+    """one object, a sequence of in-place dtype conversions and copies; every copy must be a faithful, independent
+    copy of the object AS IT IS NOW (forward, right, state_dict incl. dtypes, storage), and so must a copy of the copy.
+    `switch` continues the history on the most recent copy."""
+    torch, e3nn, o3, nn, ejit = _imports()
+    ctx = S.ctx
+    base = {"class": fam.cls, "config": fam.cfg, "build_seed": seed, "sequence": list(seq), "batch": batch}
+    key = f"copy-after-to-dtype/{fam.cls}/stale-copy"
+    try:
+        m = _build(fam, seed)
+    except Exception:
+        ctx.count("skip:construct:" + fam.cls)
+        return True
+    cur = torch.float32
+    last_copy, last_copy_dtype = None, cur
+    done = []
+    for i, op in enumerate(seq):
+        done.append(op)
+        if op == "switch":
+            if last_copy is not None:
+                m, cur = last_copy, last_copy_dtype
+            continue
+        if op in DT_CONVERT:
+            try:
+                with warnings.catch_warnings():
+                    warnings.simplefilter("ignore")
+                    _dt_convert(m, op)
+            except Exception as e:
+                ctx.count(f"skip:dtype-convert:{fam.cls}:{_tag(e)}")
+                return True
+            cur = torch.float64 if op in ("double", "to64", "to64-kw") else torch.float32
+            continue
+        # ---- a copy op ----
+        torch.manual_seed(seed + 31 * i + 1)
+        x = tuple(t.to(cur) if t.is_floating_point() else t for t in fam.args(batch))
+        xr = tuple(t.to(cur) for t in fam.right(batch)) if fam.right else None
+        try:
+            ref = _run(m, x)
+            with torch.no_grad():
+                rref = m.right(*xr) if xr is not None else None
+            if any(t.dtype != cur for t in _flat(ref) if t.is_floating_point()):
+                raise TypeError("original does not compute in its own dtype")
+        except Exception as e:
+            # the converted original itself does not work in this dtype: not a statement about copies
+            ctx.count(f"skip:dtype-forward:{fam.cls}:{str(cur)[6:]}:{_tag(e)}")
+            ctx.notes.setdefault("dtype_forward_skips", []).append(
+                {"class": fam.cls, "config": fam.cfg, "executed": list(done), "error": _tail(e, 300)})
+            return True
+        problems = []
+        try:
+            with warnings.catch_warnings():
+                warnings.simplefilter("ignore")
+                c = _dt_copy(m, op)
+                cc = copy.deepcopy(c)
+        except Exception as e:
+            if _tag(e).startswith("unpicklable"):
+                S.fail(_key("pickle", fam.cls, _tag(e)), dict(base, op=op, error=_tail(e)))
+                return False
+            problems.append(f"{op} raises {_tail(e, 400)}")
+            c = cc = None
+        if c is not None:
+            for who, mod in ((op, c), (op + " -> deepcopy", cc)):
+                for entry, xin, want in (("forward", x, ref), ("right", xr, rref)):
+                    if xin is None:
+                        continue
+                    ctx.case({"op": "dtype-seq", "class": fam.cls, "cfg": fam.cfg, "done": "|".join(done), "who": who,
+                              "entry": entry, "dtype": str(cur)}, sample_every=61)
+                    try:
+                        with torch.no_grad():
+                            got = getattr(mod, entry)(*xin) if entry == "right" else mod(*xin)
+                        ok, why = _dt_close(want, got, cur)
+                        if not ok:
+                            problems.append(f"{who}.{entry}: {why}")
+                    except Exception as e:
+                        problems.append(f"{who}.{entry} raises {type(e).__name__}: {str(e).strip().splitlines()[-1][:200]}")
+                sd, sdc = m.state_dict(), mod.state_dict()
+                if list(sd) != list(sdc):
+                    problems.append(f"{who}: state_dict keys differ {sorted(set(sd) ^ set(sdc))[:6]}")
+                for k in sd:
+                    if k in sdc and (sdc[k].dtype != sd[k].dtype or sdc[k].shape != sd[k].shape
+                                     or not torch.equal(sdc[k], sd[k])):
+                        problems.append(f"{who}: state_dict[{k!r}] {sdc[k].dtype} vs original {sd[k].dtype}"
+                                        + ("" if sdc[k].dtype != sd[k].dtype else " (values differ)"))
+                # buffers owned by generated submodules are not always in the state_dict of the parent: compare all
+                nb, nbc = dict(m.named_buffers()), dict(mod.named_buffers())
+                for k in nb:
+                    if k in nbc and nb[k].is_floating_point() and nbc[k].dtype != nb[k].dtype:
+                        problems.append(f"{who}: buffer {k!r} is {nbc[k].dtype}, original {nb[k].dtype}")
+                if _storages(m) & _storages(mod):
+                    problems.append(f"{who}: shares tensor storage with the original")
+            if _storages(c) & _storages(cc):
+                problems.append("copy of the copy shares storage with the copy")
+            last_copy, last_copy_dtype = c, cur
+        if problems:
+            ctx.count("FAIL:" + key)
+            S.report(key, dict(base, failed_at_step=i, executed=list(done), current_dtype=str(cur), problems=problems[:12],
+                               how="build module (float32); apply `executed` in order to the SAME object "
+                                   "(double/float/to*: in place; deepcopy/pickle/torchsave: make a copy and compare it, and a "
+                                   "deepcopy of it, with the object as it is now; switch: continue on the last copy)"))
+            return False
+    return True
+
+
+def part2_dtype(ctx, report):
+    torch, e3nn, o3, nn, ejit = _imports()
+    S = Session(ctx, report)
+    fams = _dt_families(ctx.tier, ctx.seed)
+    t0 = time.time()
+    n = 0
+    # deterministic sequences first: every configuration x the two shortest, then the longer ones round-robin
+    for fi, fam in enumerate(fams):
+        seqs = DT_FIXED_SEQS[:2] + ([DT_FIXED_SEQS[2 + fi % 4]] if ctx.tier == "quick" else DT_FIXED_SEQS[2:])
+        for seq in seqs:
+            try:
+                run_dtype_sequence(S, fam, 1000 + fi, seq)
+            except Exception as e:
+                S.fail(f"harness-escape/{fam.cls}/{_tag(e)}", {"class": fam.cls, "config": fam.cfg, "sequence": seq,
+                                                              "trace": traceback.format_exc()[-1500:]})
+            n += 1
+            ctx.traces += 1
+    # seeded sequences
+    for t in range(12 if ctx.tier == "quick" else 200):
+        fam = ctx.rng.choice(fams)
+        seq = []
+        for _ in range(ctx.rng.randint(3, 7)):
+            r = ctx.rng.random()
+            seq.append(ctx.rng.choice(DT_COPY) if r < 0.5 else ("switch" if r < 0.6 else ctx.rng.choice(DT_CONVERT)))
+        seq.append(ctx.rng.choice(DT_COPY))
+        seed = ctx.rng.randrange(10 ** 6)
+        try:
+            run_dtype_sequence(S, fam, seed, seq, batch=ctx.rng.choice([1, 2, 5]))
+        except Exception as e:
+            S.fail(f"harness-escape/{fam.cls}/{_tag(e)}", {"class": fam.cls, "config": fam.cfg, "sequence": seq,
+                                                          "trace": traceback.format_exc()[-1500:]})
+        n += 1
+        ctx.traces += 1
+    ctx.log(f"part 2 dtype/copy sequences: {time.time() - t0:.1f}s, {n} sequences on {len(fams)} configurations")
+
+
+
 def part2(ctx, report):
     torch, e3nn, o3, nn, ejit = _imports()
     S = Session(ctx, report)
@@ -1305,6 +1575,7 @@ def run(ctx):
         variant = part1_options(ctx, report)
         part1_codegen(ctx, report)
         part2(ctx, report)
+        part2_dtype(ctx, report)
     finally:
         _reset_defaults(e3nn, saved)
 
@@ -1322,7 +1593,11 @@ def run(ctx):
         "Part 2: every family configuration x {compile, compile(in_place=False), script|trace as declared, right()} x batch "
         "sizes; {pickle, torch.save/load, deepcopy, state_dict into a differently initialised twin} x {same outputs, no shared "
         "storage, no shared submodule objects, mutating the copy leaves the original}; option capture under all/sampled "
-        "settings of the three defaults; random histories. Non-trivial = a distinct (operation, class, configuration, batch) "
+        "settings of the three defaults; random histories; dtype/copy sequences on ONE object (fixed sequences such as "
+        "deepcopy,double,deepcopy / pickle,double,pickle / torchsave,to64,torchsave,float,torchsave first, then seeded ones over "
+        "{double,float,to(float64|float32) positional and keyword, deepcopy,pickle,torchsave, switch-to-the-copy}) for tensor "
+        "products with l>0 paths, Linear and others: after every copy forward and right on fresh inputs of the current dtype, "
+        "state_dict and buffer dtypes/values, storage independence, and the same for a copy of the copy. Non-trivial = a distinct (operation, class, configuration, batch) "
         "or history step actually executed on the real code.")
     ctx.notes["explanation"] = (
         "C14 mixes a discrete state machine with behaviour of TorchScript/pickle that has no formal semantics to model. "
@@ -1341,7 +1616,10 @@ def run(ctx):
         "CodeGenMixin: __getstate__ never writes to a live object and returns a new _modules dict, setstate∘getstate "
         "(with or without pickle transport) restores the same children under the same names with the same kind, the same "
         "__codegen__ list, in a fresh _modules object that shares nothing with the original (getstate_pure, getstate_spec, "
-        "roundtrip_spec, roundtripDirect_spec, roundtrip_same_children, roundtrip_same_names, roundtrip_no_sharing). "
+        "roundtrip_spec, roundtripDirect_spec, roundtrip_same_children, roundtrip_same_names, roundtrip_no_sharing), and the "
+        "serialised state is a function of the CURRENT content of the generated children, not of the object's identity: copy, "
+        "in-place conversion, copy again yields the converted children (copy_convert_copy; a memoising __getstate__ is the "
+        "counter-model in the accompanying example). "
         "The harness decides which model of disable_e3nn_codegen is the code's by replaying the witness on the real "
         "library; the active model is then checked op-by-op against the real code. "
         "CORRESPONDENCE ONLY (no Lean model possible): that e3nn.util.jit.compile/script/trace succeed and preserve the "
@@ -1376,6 +1654,14 @@ def replay(ctx, path):
             w = _witness(ctx)
             print(json.dumps(w, indent=1, default=str))
             return 1 if w["with"]["after"]["jit_script_fx"] is not True else 0
+        if key.startswith("copy-after-to-dtype"):
+            S = Session(ctx, report)
+            for f in _dt_families(info.get("tier", ctx.tier), info.get("seed", 0)):
+                if f.cls == info.get("class") and f.cfg == info.get("config"):
+                    run_dtype_sequence(S, f, info["build_seed"], info["sequence"], info.get("batch", 3))
+            for k, v in hits.items():
+                print("REPRODUCED" if k == key else "other", k, json.dumps(v, default=str)[:1500])
+            return 1 if key in hits else 0
         if "history_seed" in info:
             S = Session(ctx, report)
             fams = [f for f in _families(info.get("tier", ctx.tier), info.get("seed", 0))
